@@ -5,11 +5,11 @@
 //! `p<name>^n/d`, `b<name>^n/d` in the stored order)  B S T (Bool String DateTime)
 //! L<t> (list)  F(t,…)->t (function)  X<name> (struct).
 //! Scheme: `C:<type>` or `Q<n>[<bound>,…]:<type>`.
+use crate::Context;
+use crate::type_variable::TypeVariable;
 use crate::typechecker::qualified_type::Bound;
 use crate::typechecker::type_scheme::TypeScheme;
-use crate::type_variable::TypeVariable;
 use crate::typed_ast::{DType, DTypeFactor, DefineVariable, Statement, Type};
-use crate::Context;
 
 fn dtype_text(d: &DType) -> String {
     let fs: Vec<String> = d
@@ -171,11 +171,17 @@ fn value_text(ctx: &Context, v: &crate::value::Value) -> String {
         Value::StructInstance(info, vs) => format!(
             "r|{}|{}",
             info.name,
-            vs.iter().map(|v| value_text(ctx, v)).collect::<Vec<_>>().join("~")
+            vs.iter()
+                .map(|v| value_text(ctx, v))
+                .collect::<Vec<_>>()
+                .join("~")
         ),
         Value::List(l) => format!(
             "l|{}",
-            l.iter().map(|v| value_text(ctx, v)).collect::<Vec<_>>().join("~")
+            l.iter()
+                .map(|v| value_text(ctx, v))
+                .collect::<Vec<_>>()
+                .join("~")
         ),
     }
 }
